@@ -33,4 +33,4 @@ def jobs(tier):
     return J
 
 
-META = {'functions': [], 'undecided_part': '', 'trusted_base': ['models/alloc.h', 'models/libc.h']}
+META = {'functions': ['reduce_decode_get', '_reduce_uint_read', 'reduce_decode_finish', '_reduce_output_byte', '_reduce_symb_flush'], 'undecided_part': '', 'trusted_base': ['models/alloc.h', 'models/libc.h']}
